@@ -23,6 +23,7 @@ structure DS where
   lastCompact : Option (List (String × Fields)) := none
   prevImpl : Option Obs := none           -- previous implementation observation (for restart checks)
   implCompact : Option (List (String × Fields)) := none
+  implAtCompact : Option Obs := none      -- the implementation's observation when `compact` ran
 
 def splitOnStr (s sep : String) : List String := s.splitOn sep
 
@@ -108,7 +109,7 @@ def invViolations (o : Obs) : List String :=
     let kind :=
       if !((o.db.map (·.1)).isPerm (o.live.map (·.id))) then "id-sets-differ"
       else "fields-differ"
-    [s!"C14 registry-ne-db kind={kind}"])
+    [s!"C14 registry-ne-db-{kind}"])
 
 def metaOf (toks : List String) : Meta :=
   let kind := kvStr toks "kind"
@@ -204,7 +205,7 @@ def stepOp (d : DS) (op implObs : String) : DS × String × List String × List 
       else finish d (bump s id ⟨kvNat toks "dl", kvNat toks "ul", kvNat toks "wa", kvNat toks "se"⟩) "ok" [] ["branch:bump"]
     | "flush" => finish d (updateStats s) "ok" [] ["branch:flush"]
     | "compact" =>
-      let c := compact s
+      let c := (compact s).getD []
       -- oracle on the implementation's result
       let (cviol, implC) :=
         if implRes.startsWith "ok C=" then
@@ -222,12 +223,12 @@ def stepOp (d : DS) (op implObs : String) : DS × String × List String × List 
                     | some rc, some r => rc.started != r.started
                     | _, _ => false) then "started-flag"
                 else "fields"
-              [s!"C14 compact-mismatch kind={kind}"], some ic)
+              [s!"C14 compact-mismatch-{kind}"], some ic)
           | none => ([], some ic)
-        else if implRes.startsWith "panic" then ([s!"C14 compact-panic kind={(implRes.drop 6).toString}"], none)
+        else if implRes.startsWith "panic" then ([s!"C14 compact-panic-{(implRes.drop 6).toString}"], none)
         else ([s!"C14 compact-failed res={implRes}"], none)
       let anyNoInfo := s.reg.any (fun t => !t.f.hasInfo)
-      finish { d with lastCompact := some c, implCompact := implC } s ("ok C=" ++ showDb c []) cviol
+      finish { d with lastCompact := some c, implCompact := implC, implAtCompact := d.prevImpl } s ("ok C=" ++ showDb c []) cviol
         (["branch:compact"] ++ (if anyNoInfo then ["branch:compact-skips-magnet"] else []) ++
          (if s.reg.any (fun t => t.f.hasInfo ∧ !t.f.started) then ["branch:compact-never-started"] else []))
     | "swap" =>
@@ -237,21 +238,21 @@ def stepOp (d : DS) (op implObs : String) : DS × String × List String × List 
         let resume := kvBool toks "resume"
         let s' := openOn s.lo s.hi resume c
         -- oracle: the implementation's session after the swap is the restart of (live-with-metadata, compacted db)
-        let rviol := match d.prevImpl, d.implCompact, parseObs s.lo s.hi implObs with
+        let rviol := match d.implAtCompact, d.implCompact, parseObs s.lo s.hi implObs with
           | some o, some ic, some (_, o') =>
             let before : Obs := { o with live := o.live.filter (fun t => (dbGet ic t.id).isSome), db := ic }
             -- counters/started of the compacted record are what must come back
             let before' : Obs := { before with live := before.live.map fun t => match dbGet ic t.id with
               | some r => { t with f := { t.f with cnt := r.cnt } }
               | none => t }
-            if restartEquiv resume before' o' then [] else ["C14 restart-mismatch after=swap"]
+            if restartEquiv resume before' o' then [] else ["C14 restart-mismatch-after-swap"]
           | _, _, _ => []
         finish { d with lastCompact := none, implCompact := none, resume := resume, junkSeen := false, junk := [] } s' "ok" rviol ["branch:swap", "restart"]
     | "reopen" =>
       let resume := kvBool toks "resume"
       let s' := reopen s resume
       let rviol := match d.prevImpl, parseObs s.lo s.hi implObs with
-        | some o, some (_, o') => if restartEquiv resume o o' then [] else ["C14 restart-mismatch after=reopen"]
+        | some o, some (_, o') => if restartEquiv resume o o' then [] else ["C14 restart-mismatch-after-reopen"]
         | _, _ => []
       finish { d with resume := resume, junkSeen := !d.junk.isEmpty, lastCompact := d.lastCompact } s' "ok" rviol
         (["branch:reopen", "restart"] ++ (if s.reg.any (·.f.started) then ["branch:reopen-with-started"] else []) ++
